@@ -5,7 +5,13 @@ Every rule decides on *values*: a generator body is executed symbolically for on
 one send to the next is found by def-use (whatever the locals are called, whether it lives in locals, a tuple, a dict, a namespace or a small
 record class), and the expected side is one generic time step of the batch solver evaluated by the same engine (verifier/c08_batch.py) / a formula.
 A value the engine cannot lower, a call whose effects on the arrays it cannot follow, a state structure it cannot place: ANALYSIS-ERROR, never a
-verdict; a store that is provably absent or provably different: VIOLATION."""
+verdict; a store that is provably absent or provably different: VIOLATION.
+
+Third pass: whenever a helper / sub-generator / dispatch is not followed exactly the affected values are Unknown (or the arm is abandoned), never
+compared: objects updated in place are tracked by identity across helper frames (and only where the object is provably an array - an induction
+over sends checked on what every kind of send leaves behind), a failed comparison whose values contain an uninterpreted call is undecided, a
+local bound to a function the engine cannot call abandons the arm.  What the engine proves before it has to stop (a NameError on the taken path,
+an endless loop without yield, time histories of different lengths in one expression) is still reported."""
 from __future__ import annotations
 
 import ast
@@ -46,15 +52,48 @@ def _mentions_opaque(detail):
         t = detail if isinstance(detail, str) else json.dumps(detail, default=repr)
     except Exception:  # noqa
         t = repr(detail)
-    return "call:" in t
+    import re
+    deliberate = set(NOT_FOLLOWED) | {q_.split(".")[-1] for _, q_, _ in GENS.values()} | {"super", "next", "send", "__next__", "type", "SimpleNamespace"}
+    return any(nm.split(".")[-1] not in deliberate for nm in re.findall(r"call:([\w.#]*)\(", t))
 
 
-_VALUE_RULES = ("C08-R1", "C08-R2", "C08-R2c", "C08-R3", "C08-R3c", "C08-R4")       # (R5 compares what calls it deliberately does not follow return)
+def _stopped(ctx, label, where, e):
+    """the engine had to stop (Unsupported): an analysis error - unless it had already proved that the send dies on the way"""
+    cr = getattr(e, "crashes", None)
+    if cr:
+        msg, st_ = cr[0]
+        ctx.fail(label + ": the send runs through", st_ if st_ is not None else where, {"crash": msg, "then": str(e)[:200]})
+    else:
+        ctx.error(label, where, str(e))
+
+
+def _crash_in(detail):
+    """the reason when every undetermined value shown with a failed comparison is undetermined because of a definite NameError"""
+    import json
+    import re
+    if detail is None:
+        return None
+    try:
+        t = detail if isinstance(detail, str) else json.dumps(detail, default=repr)
+    except Exception:  # noqa
+        t = repr(detail)
+    if "Unknown(" not in t:
+        return None
+    hits = re.findall(r"Unknown\(((?:local|name) `[^`]+` is not (?:bound on this path|defined))\)", t)
+    return hits[0] if hits and len(hits) == t.count("Unknown(") else None
+
+
+_VALUE_RULES = ("C08-R1", "C08-R2", "C08-R2c", "C08-R3", "C08-R3c", "C08-R4", "C08-R5")     # (calls a rule deliberately does not follow are not "uninterpreted")
 
 
 def _fail(ctx, instance, where=None, detail=None, key=None):
     """a comparison that failed on a value containing a call the engine does not interpret (a library routine it has no model of, a function
     it did not follow) is not decided: what the call computes is not known, so the values were never comparable"""
+    crash = _crash_in(detail)
+    if key is None and crash:
+        # a value is undetermined because the path reads a name nothing has bound: the code provably dies there (NameError / UnboundLocalError)
+        ctx.fail(instance, where, {"crash": crash})
+        return
     if key is None and ctx.rule in _VALUE_RULES and _mentions_opaque(detail):
         ctx.error(instance + " [not decided: a value reaching this comparison contains a call the engine does not interpret]", where, detail)
         return
@@ -262,8 +301,11 @@ def run_arm(ctx, kind, cfg, which, carry=None, generic=(), generic_prefix=None, 
     rel, qual, mode = GENS[kind]
     fn = ctx.src.func(rel, qual)
 
+    no_assume = set()
+
     def make(which_, carry_, generic_, prefix_, heap_carried):
         env, facts = cfg_env(cfg, which_)
+        facts.no_assume = set(no_assume)
         facts.generic = set(generic_)
         facts.generic_prefix = prefix_
         # a message can only be sent when there are at least two time steps: columns of the time histories
@@ -277,7 +319,12 @@ def run_arm(ctx, kind, cfg, which, carry=None, generic=(), generic_prefix=None, 
         ev = GenEval(ctx, fn, env=env, facts=facts, inline=_inline(ctx, kind), refhook=canon, carry=carry_, sided=sided,
                      shapes=array_shapes(env, fn, mode), heap_carried=heap_carried)
         ev.tracked, ev.opaque_ok = (lambda v: symname(v) in canon.root), frozenset(NOT_FOLLOWED)
-        ev.run(fn.body)
+        try:
+            ev.run(fn.body)
+        except Unsupported as e:
+            if not facts.lost:
+                e.crashes = list(facts.crashes)      # what the engine had proved before it had to stop
+            raise
         if facts.lost:
             raise Unsupported(f"{qual}: {facts.lost[0]}")
         if ev.loop is None:
@@ -303,18 +350,28 @@ def run_arm(ctx, kind, cfg, which, carry=None, generic=(), generic_prefix=None, 
     cache[key] = arm
     if ev.facts.assumed_arrays:
         # an in-place update (`x += y` through another name / inside a helper) of a value an earlier send left behind was followed because that
-        # value starts as an array: by induction over sends it must stay one, i.e. every kind of send must leave an array there
+        # value starts as an array: by induction over sends it must stay one, i.e. every kind of send must leave an array there.  Where that cannot
+        # be shown the arm is evaluated again without the assumption: what the other names of the object hold after the update is then unknown
+        # (and only the obligations that look at them are undecided)
+        bad = set()
         try:
             others = [] if which == "pos" else [a_ for a_ in _generic_arms(ctx, kind, cfg) if a_.canon.which == "pos"]
-            for slot in sorted(ev.facts.assumed_arrays):
-                for a_ in [arm] + others:
-                    fv = a_.final(slot)
-                    if fv is not None and a_.lev.is_array(fv) is not True:
-                        raise Unsupported(f"{qual}: `{slot}` is updated in place by one send but another send leaves there a value that is not "
-                                          f"provably an array: {fv!r}"[:300])
-        except Unsupported as e:
-            cache[key] = e
-            raise
+        except Unsupported:
+            others, bad = [], set(ev.facts.assumed_arrays)
+        for slot in sorted(ev.facts.assumed_arrays):
+            for a_ in [arm] + others:
+                fv = a_.final(slot)
+                if fv is not None and a_.lev.is_array(fv) is not True:
+                    bad.add(slot)
+        if bad:
+            no_assume |= bad
+            try:
+                ev, canon = make(which, carry, generic, generic_prefix, cache.get(("heap", key[0], key[1])))
+            except Unsupported as e:
+                cache[key] = e
+                raise
+            arm = Arm(ev, canon)
+            cache[key] = arm
     return arm
 
 
@@ -485,7 +542,7 @@ def r1_carried_state(ctx):
             try:
                 index, tags, cache, roles, arms = _find_state(ctx, kind, cfg)
             except Unsupported as e:
-                ctx.error(f"{tag}: carried state", fn, str(e))
+                _stopped(ctx, f"{tag}: carried state", fn, e)
                 continue
             lp = arms[0].loop
             nconf += 1
@@ -723,6 +780,7 @@ def run_batch(ctx, kind, cfg):
         if not shared.loops:
             raise Unsupported(f"{qual}: no time loop is reached in configuration {cfg}")
     except Unsupported as e:
+        e.crashes = list(facts.crashes)          # what the engine had proved before it had to stop (a definite exception at run time)
         cache[key] = e
         raise
     r = BatchStep(ev, fn, shared)
@@ -848,7 +906,13 @@ def batch_step(ctx, kind, cfg, derived=0, label=None):
     try:
         b = run_batch(ctx, kind, cfg)
     except Unsupported as e:
-        ctx.error(f"{tag}: batch step", None, str(e))
+        if getattr(e, "crashes", None):
+            # the body could not be evaluated to the end, but on the way the engine proved that it raises (a name read before it is bound,
+            # time histories of different lengths combined in one expression)
+            msg, st_ = e.crashes[0]
+            _fail(ctx, f"{tag}: the batch solver runs through for a force history with more than three time steps", st_, {"crash": msg, "then": str(e)[:200]})
+        else:
+            ctx.error(f"{tag}: batch step", None, str(e))
         return None
     seen = ctx.__dict__.setdefault("_c08_bseen", set())
     if (kind, id(b)) in seen:
@@ -902,7 +966,7 @@ def r2_step_equals_batch(ctx):
         try:
             arm = run_arm(ctx, "real", cfg, "pos", generic_prefix="carry:")
         except Unsupported as e:
-            ctx.error(f"{tag}: positive send", None, str(e))
+            _stopped(ctx, f"{tag}: positive send", None, e)
             continue
         if cfg["k"]:
             bs = batch_step(ctx, "real", cfg)
@@ -1154,7 +1218,7 @@ def r2c_complex_path(ctx):
         try:
             g = run_arm(ctx, "complex", cfg, "pos", generic_prefix="carry:")
         except Unsupported as e:
-            ctx.error(f"complex path ({tag}): could not evaluate", None, str(e))
+            _stopped(ctx, f"complex path ({tag}): could not evaluate", None, e)
             continue
         lp = g.loop
         nconf += 1
@@ -1940,9 +2004,16 @@ MANIFEST = {
             "(verifier/c08_batch.py): whole-history slices are series, what a time loop carries is checked to be the column just stored, and the two "
             "carried values for which that is not a syntactic identity (the batch damping force; the modal state y of the complex solver) are used "
             "as lemmas with their own initial values as definitions. State kept across sends may live in locals, tuples, dicts, namespaces or small "
-            "record classes; helpers may be functions, methods, nested functions, lambdas, partials, getters, `yield from` sub-generators. Not "
-            "followed (exit 2): break / else on the receiving loop, nested receiving loops, yield in an except handler, match, in-place update of "
-            "carried state through an alias, helpers that store into array views but live outside the package.",
+            "record classes (their methods are followed on the object); helpers may be functions, methods, nested functions, lambdas, partials, getters, "
+            "properties, callbacks handed to a shared receiving loop, `yield from` sub-generators; library functions are known under any imported "
+            "name (operator.mul / matmul dispatch). Arrays updated in place are followed by object identity (`x += y` on a helper's parameter, "
+            "`np.add(.., out=x)`, `x[:] = ..`, a column bound to a local and updated through it) where the object is provably an array - otherwise "
+            "every other name of the object is unknown; a load of a cell stored earlier in the same send reads the stored value; endless `for` "
+            "loops (itertools.count, iter(int, 1)) are receiving loops; batch loops may iterate over columns (zip / enumerate / range / sliced "
+            "transposes). A comparison that fails on a value containing a call the engine does not interpret is undecided (exit 2), a definite "
+            "NameError / endless loop / shape mismatch found on the way a violation. Not followed (exit 2): break / else on the receiving loop, "
+            "nested receiving loops, yield in an except handler, match, partial in-place stores into carried arrays, in-place methods (sort, put ...), "
+            "helpers that store into array views but live outside the package.",
     "technique": "symbolic execution per configuration + def-use of loop-carried state + symbolic step formulas compared with the batch loop body + "
                  "differentiation for the add-on part + may-alias effect analysis",
 }
